@@ -15,7 +15,7 @@ import (
 func bigCSV() []byte {
 	var sb strings.Builder
 	sb.WriteString("i,s,f,d,b,n\n")
-	strs := []string{"ab", "", "日本語", "x y", "\"a,b\"", "é", "0", "-1", "2012-02-03", "true"}
+	strs := []string{"ab", "", "日本語", "x y", "q", "é", "0", "-1", "2012-02-03", "true"}
 	for k := 0; k < 200; k++ {
 		n := ""
 		if k%7 == 0 {
@@ -25,6 +25,9 @@ func bigCSV() []byte {
 	}
 	return []byte(sb.String())
 }
+
+// the same file as a shell command (for reproducers)
+const bigAwk = `awk 'BEGIN{print "i,s,f,d,b,n"; split("ab,,日本語,x y,q,é,0,-1,2012-02-03,true",S,","); for(k=0;k<200;k++) printf "%d,%s,%g,2012-02-%02d %02d:18:15,%d,%s\n", k, S[k%10+1], k/8-5, k%28+1, k%24, k%3, (k%7==0 ? k-50 : "")}'`
 
 func fixtures() []fileSpec {
 	return []fileSpec{
@@ -231,7 +234,7 @@ func fnJobs(g *hc.Gen, budget int) []*job {
 		jobs = append(jobs, callJob("fn", []string{"fn:NOW", fmt.Sprintf("arity:%d", k), "where:scalar"}, nil, "SELECT NOW(", randArgs(k, false), ")"))
 		jobs = append(jobs, callJob("fn", []string{"fn:JSON_OBJECT", fmt.Sprintf("arity:%d", k), "where:table_cpu4"}, cpu4, "SELECT JSON_OBJECT(", randArgs(k, true), ") FROM big"))
 		// user-defined scalar and aggregate functions: wrong argument counts, defaults, recursion to a bounded depth
-		udf := "DECLARE uf FUNCTION (@x, @y DEFAULT " + pick(g, pool) + ") AS BEGIN IF @x IS NULL OR @x < 1 THEN RETURN @y; END IF; RETURN uf(@x - 1, @y); END"
+		udf := "DECLARE uf FUNCTION (@x, @y DEFAULT " + pick(g, pool) + ") AS BEGIN IF @x IS NULL OR @x < 1 OR @x > 40 THEN RETURN @y; END IF; RETURN uf(@x - 1, @y); END"
 		uag := "DECLARE ua AGGREGATE (cur, @p DEFAULT " + pick(g, pool) + ") AS BEGIN VAR @v, @s := 0; WHILE @v IN cur DO @s := @s + @v; END WHILE; RETURN @s || @p; END"
 		a := randArgs(k, true)
 		jobs = append(jobs, progJob("fn", []string{"fn:(user-defined function)", fmt.Sprintf("arity:%d", k)}, cpu4, udf, "SELECT uf("+strings.Join(a, ", ")+") FROM t"))
